@@ -80,18 +80,20 @@ Trunc(b) ==
 \* is the finite double's magnitude < 2^k  (k <= 65)?
 MagBelowPow2(b, k) == CmpID(Z!Pow2(k), [i \in 1..4 |-> IF i = 1 THEN b[1] % 32768 ELSE b[i]]) = "gt"
 
-\* powers of two, tabulated once
-P2 == [k \in 0..140 |-> N!Pow2(k)]
-\* number of significant bits of a BigNat below 2^140
-BitLen(m) == IF N!IsZero(m) THEN 0
-             ELSE CHOOSE k \in 1..140 : N!Lt(m, P2[k]) /\ N!Le(P2[k - 1], m)
+\* powers of two (computed on demand: definitions inside an instantiated module are not cached by TLC)
+P2 == [k \in 0..140 |-> N!Pow2(k)]           \* kept for the model-checking modules that use it directly
+PW(k) == N!Pow2(k)
+\* number of significant bits of a BigNat: search upward from the lower bound 13 * (limbs - 1)  (2^13 < 10^4)
+RECURSIVE BitLenFrom(_, _)
+BitLenFrom(m, k) == IF N!Lt(m, PW(k)) THEN k ELSE BitLenFrom(m, k + 1)
+BitLen(m) == IF N!IsZero(m) THEN 0 ELSE BitLenFrom(m, 13 * (Len(m) - 1))
 
 W16 == << 5536, 6 >>          \* 65536
 \* bits of the normal double (-1)^neg * M * 2^E where 2^52 <= M < 2^53; << >> if out of the normal range
 EncodeNormal(neg, M, E) ==
   LET biased == E + 1075 IN
   IF biased < 1 \/ biased > 2046 THEN << >>
-  ELSE LET frac == N!Sub(M, P2[52])
+  ELSE LET frac == N!Sub(M, PW(52))
            d0 == N!DivMod(frac, W16)
            d1 == N!DivMod(d0[1], W16)
            d2 == N!DivMod(d1[1], W16)
@@ -103,9 +105,36 @@ EncodeNormal(neg, M, E) ==
 EncodeExact(neg, m, e) ==
   IF N!IsZero(m) THEN << IF neg THEN 32768 ELSE 0, 0, 0, 0 >>
   ELSE LET L == BitLen(m) IN
-       IF L <= 53 THEN EncodeNormal(neg, N!Mul(m, P2[53 - L]), e - (53 - L))
-       ELSE LET dm == N!DivMod(m, P2[L - 53]) IN
+       IF L <= 53 THEN EncodeNormal(neg, N!Mul(m, PW(53 - L)), e - (53 - L))
+       ELSE LET dm == N!DivMod(m, PW(L - 53)) IN
             IF N!IsZero(dm[2]) THEN EncodeNormal(neg, dm[1], e + (L - 53)) ELSE << >>
+
+\* ---- decimal <-> binary: comparison of a decimal rational with dyadic rationals ----
+Pow5(k) == LET RECURSIVE F(_) F(i) == IF i = 0 THEN << 1 >> ELSE IF i >= 5 THEN N!MulLimb(F(i - 5), 3125) ELSE N!MulLimb(F(i - 1), 5) IN F(k)
+Pow2Big(k) == N!Pow2(k)
+Pow10Big(k) == N!Mul(Pow5(k), Pow2Big(k))
+\* compare M * 10^E10 with K * 2^F2 (M, K BigNat; E10, F2 integers): -1, 0, 1
+CmpDecBin(M, E10, K, F2) ==
+  LET lhs == N!Mul(N!Mul(M, IF E10 >= 0 THEN Pow10Big(E10) ELSE << 1 >>), IF F2 < 0 THEN Pow2Big(-F2) ELSE << 1 >>)
+      rhs == N!Mul(N!Mul(K, IF F2 >= 0 THEN Pow2Big(F2) ELSE << 1 >>), IF E10 < 0 THEN Pow10Big(-E10) ELSE << 1 >>)
+  IN  N!Cmp(lhs, rhs)
+\* Is the finite double with words b a correctly rounded value of the non-negative decimal M * 10^E10 ?
+\* (magnitudes only; the caller handles the sign).  Accepts either neighbour on an exact tie.
+\* x = m * 2^e; its rounding interval is [(2m-1) * 2^(e-1), (2m+1) * 2^(e-1)] (for the smallest mantissa of a
+\* binade the lower half-gap is narrower; accepting the wider interval there only widens by half an ulp below).
+RoundsTo(M, E10, b) ==
+  LET d == Decode(b) IN
+  IF N!IsZero(d.m) THEN N!IsZero(M) \/ CmpDecBin(M, E10, << 1 >>, -1075) <= 0           \* below half the smallest subnormal
+  ELSE LET twoM == N!MulLimb(d.m, 2)
+       IN  /\ CmpDecBin(M, E10, N!Sub(twoM, << 1 >>), d.e - 1) >= 0
+           /\ CmpDecBin(M, E10, N!Add(twoM, << 1 >>), d.e - 1) <= 0
+\* is M * 10^E10 at least the overflow threshold (2^1024 - 2^970, the midpoint above the largest double)?
+Overflows(M, E10) == CmpDecBin(M, E10, N!Sub(PW(54), << 1 >>), 970) >= 0
+\* within one unit in the last place of the exact value (either neighbour): used for int -> double
+WithinUlp(M, E10, b) ==
+  LET d == Decode(b) IN
+  /\ CmpDecBin(M, E10, IF N!IsZero(d.m) THEN << >> ELSE N!Sub(d.m, << 1 >>), d.e) >= 0
+  /\ CmpDecBin(M, E10, N!Add(d.m, << 1 >>), d.e) <= 0
 
 \* the double exactly equal to the integer n (BigInt, |n| < 2^70), or << >>
 OfIntExact(n) == EncodeExact(n.s < 0, n.m, 0)
